@@ -88,7 +88,24 @@ def run(ctx):
                 c[:-1] + [" ".join(ops[: k + 1])], out[:300], label="impl")
         if len({o[0] for o in ops}) == 2:
             nontriv += 1
-    ctx.evaluations = len(cases)
+    # long single-instance histories (implementation only): late answers vs a fresh instance
+    longs = [ipgen.long_history(rng, 16000 if q else 60000, B=B, pfx="D") for B in (8, 0)]
+    lo = vlib.run_impl(longs, jobs=2)
+    probes = []
+    for c, out in zip(longs, lo):
+        ops, res = ipgen.ops_of(c), out.split(" ")
+        if len(ops) != len(res):
+            ctx.fail("request raised in a long history", c[:-1] + ["<%d requests>" % len(ops)], out[:200], label="impl-long")
+            continue
+        ks = list(range(len(ops) - 260, len(ops), 4))
+        probes.append((c, ops, res, ks, vlib.run_impl([c[:-1] + [" ".join(ops[k] for k in ks)]])[0].split(" ")))
+    for c, ops, res, ks, fresh in probes:
+        for k, f in zip(ks, fresh):
+            if res[k] != f:
+                ctx.fail("after %d earlier requests %s is answered %s; a fresh instance answers %s" % (k, ops[k], res[k], f),
+                         c[:-1] + ["<%d distinct addresses first> %s" % (k, ops[k])], res[k], f, label="impl-long")
+                break
+    ctx.evaluations = len(cases) + len(longs)
     ctx.distinct_nontrivial = nontriv
-    ctx.search_stats = {"histories": len(cases), "requests": sum(len(ipgen.ops_of(c)) for c in cases)}
+    ctx.search_stats = {"histories": len(cases), "requests": sum(len(ipgen.ops_of(c)) for c in cases), "long_histories": [len(ipgen.ops_of(c)) for c in longs]}
     ctx.samples = [{"case": cases[0], "impl": i[0]}, {"case": cases[-1], "impl": i[-1]}]
